@@ -88,6 +88,8 @@ void sim_get_stats(struct sim_stats* out);
 void sim_hash_mix(uint64_t v);     // workload events enter the event hash
 // Enter the quiescence phase: faults off, fair round-robin, at most `budget` further steps.
 void sim_quiesce(uint64_t budget);
+// multiply every quiescence budget (debugging aid: "is it a hang or just slow?")
+void sim_set_budget_scale(uint64_t n);
 // Called on deadlock ("deadlock"), exhausted budget ("budget") or step cap ("steps").
 void sim_set_fail_handler(sim_fail_fn fn);
 // scripted replay: decisions must be sorted by (tid, n, kind)
